@@ -44,6 +44,16 @@ def ptag_programs():
             yield P.F((o, P.S(("pass",))), tags=ftag)
             o2 = ("O", (P.PTAG, "t"), 1, (((), (("pass", vals[0]),)), (("u",), (("pass", vals[1]),))))
             yield P.F((P.R((o2,), tags=ftag),))
+    # examples blocks with DIFFERENT headings: a block lacking the "tg" column before / after / between blocks that
+    # have it - for its rows the parametrised tag is unresolvable and dropped; values must not travel between blocks
+    for v1, v2 in itertools.product(("t", "u"), repeat=2):
+        for order in ("with,without", "without,with", "with,without,with"):
+            blocks = []
+            vals = iter((v1, v2))
+            for kind in order.split(","):
+                blocks.append(((), (("pass", next(vals)), ("pass", "x")) if kind == "with" else (("pass",), ("pass",))))
+            yield P.F((("O", (P.PTAG,), 1, tuple(blocks)), P.S(("pass",))))
+            yield P.F((P.R((("O", (P.PTAG, "x"), 1, tuple(blocks)),), tags=("u",)),))
 
 
 def programs(tier):
